@@ -14,7 +14,7 @@ X64 = True
 RULE = (
     'MJCF documents: a tree of up to ~9 bodies in which 1-3 levels of jointless bodies are inserted under the world, under '
     'jointed bodies and nested; each jointless body has pos only / quat only / both / neither (class = first draw), unit or '
-    'non-normalised quat (norm in [0.3,3]), and holds geoms (pos/quat or fromto), sites and jointed child bodies (hinge/slide; '
+    'non-normalised quat (norm in [0.6,3]), and holds geoms (pos/quat or fromto), sites and jointed child bodies (hinge/slide; '
     'free joints on top-level bodies). Oracle: MuJoCo forward kinematics of the original string vs mjcf.fuse_bodies(string) at '
     'qpos0 and at a random qpos (mapped by joint name): every geom/site/jointed body by name; composite mass, CoM and world inertia '
     'of each jointed body with its welded jointless descendants. Non-trivial: a jointless body with non-identity quat holding a geom '
@@ -39,7 +39,7 @@ def _quat(draw, allow_nonunit):
   if q == [1.0, 0.0, 0.0, 0.0]:
     q = [0.8, 0.2, 0.4, 0.4]
   if allow_nonunit and draw(st.integers(0, 2)) == 0:
-    s = draw(st.sampled_from([0.3, 0.5, 2.0, 3.0, 1.5, 0.7]))
+    s = draw(st.sampled_from([0.6, 0.8, 2.0, 3.0, 1.5, 0.7]))  # >= 0.6: the six-decimal printing error grows as 1/prod(norms)
     q = [round(x * s, 3) for x in q]
     if not any(q[1:]) or abs(math.sqrt(sum(x * x for x in q)) - 1) < 1e-3:
       q = [1.0, 1.0, 0.0, 0.0]
